@@ -335,6 +335,12 @@ def r5_sibling_drivers(cx):
         if lp is not None and isinstance(lp.target, ast.Tuple):
             tg = [U(e) for e in lp.target.elts]
             ok = call_attr(lp.iter) == "generate_incremental" and [U(a) for a in subs[0].args] == ["run"] + tg and not has_exit(lp.body) and not guard_texts(subs[0], stop=lp)
+        comp = enclosing(subs[0], (ast.ListComp,))
+        if lp is None and comp is not None and comp.elt is subs[0] and len(comp.generators) == 1 and isinstance(comp.generators[0].target, ast.Tuple):
+            # eager list comprehension: every pair is submitted before any result is awaited, as in the loop form
+            g = comp.generators[0]
+            tg = [U(e) for e in g.target.elts]
+            ok = call_attr(g.iter) == "generate_incremental" and [U(a) for a in subs[0].args] == ["run"] + tg and not g.ifs and not subs[0].keywords
     cx.require(ok, subs[0] if subs else ra, "the pooled arm submits exactly run(graph, broker) for every yielded pair", construct=short(subs[0]) if subs else "(no pool.submit)")
     # results of all futures are awaited
     res = [c for c in find_calls(ra.body, attr="result")]
